@@ -32,7 +32,7 @@ import (
 const windowNs = int64(300 * time.Second)
 
 type frameSpec struct {
-	Type      string       `json:"type"` // sleep | wake | queued-sleep | queued-wake
+	Type      string       `json:"type"` // sleep | wake | queued-sleep | queued-wake | peer-up (From connects; no command)
 	From      int          `json:"from"`
 	AdvanceMs int64        `json:"advance_ms"` // virtual time to let pass before handing the frame in
 	Cmd       *scx.CmdSpec `json:"cmd"`
@@ -71,7 +71,13 @@ func (r *recorder) take() []sent {
 	return s
 }
 
+type fwdCmd struct {
+	Origin int
+	ID, Ts uint64
+}
+
 type stepObs struct {
+	FwdWakeCmds       []fwdCmd
 	NowNs             int64
 	State             int
 	SleepCb, WakeCb   int
@@ -142,22 +148,37 @@ func runCase(c *vh.Ctx, t *testing.T, keys *scx.Keys, dataDir string, cs *caseSp
 				case "queued-wake":
 					q := &protocol.QueuedState{WakeCmd: keys.Wake(fs.Cmd, now.Unix())}
 					fr = &protocol.Frame{Type: protocol.FrameQueuedState, StreamID: protocol.ControlStreamID, Payload: q.Encode()}
+				case "peer-up":
 				default:
 					panic("unknown frame type " + fs.Type)
 				}
 				sleepCb, wakeCb = 0, 0
 				rec.take()
-				a.VerifProcessFrame(scx.ID(fs.From), fr)
+				if fs.Type == "peer-up" {
+					a.VerifFlooder().OnPeerConnected(scx.ID(fs.From))
+				} else {
+					a.VerifProcessFrame(scx.ID(fs.From), fr)
+				}
 				o := stepObs{NowNs: now.UnixNano(), State: int(mgr.GetState()), SleepCb: sleepCb, WakeCb: wakeCb}
 				for _, s := range rec.take() {
 					switch s.Frame.Type {
 					case protocol.FrameSleepCommand:
 						o.FwdSleep = append(o.FwdSleep, s.To)
+						if fs.Type == "peer-up" {
+							c.Fail("sleep-command-sent-to-connecting-peer", "a SLEEP_COMMAND was sent when a peer connected", cs)
+							break
+						}
 						if fc, err := protocol.DecodeSleepCommand(s.Frame.Payload); err != nil || !sameCmd(fs.Cmd, fc.OriginAgent, fc.CommandID, fc.Timestamp, fc.Signature, fs.Type) {
 							c.Fail("forwarded-command-differs", "a forwarded SLEEP_COMMAND does not carry the received command", cs)
 						}
 					case protocol.FrameWakeCommand:
 						o.FwdWake = append(o.FwdWake, s.To)
+						if fc, err := protocol.DecodeWakeCommand(s.Frame.Payload); err == nil {
+							o.FwdWakeCmds = append(o.FwdWakeCmds, fwdCmd{Origin: scx.Idx(fc.OriginAgent), ID: fc.CommandID, Ts: fc.Timestamp})
+						}
+						if fs.Type == "peer-up" {
+							break
+						}
 						if fc, err := protocol.DecodeWakeCommand(s.Frame.Payload); err != nil || !sameCmd(fs.Cmd, fc.OriginAgent, fc.CommandID, fc.Timestamp, fc.Signature, fs.Type) {
 							c.Fail("forwarded-command-differs", "a forwarded WAKE_COMMAND does not carry the received command", cs)
 						}
@@ -191,6 +212,25 @@ func monitor(c *vh.Ctx, cs *caseSpec, obs []stepObs) {
 		acted := o.State != prev || o.SleepCb+o.WakeCb > 0
 		forwarded := len(o.FwdSleep)+len(o.FwdWake) > 0
 		prev = o.State
+		if fs.Type == "peer-up" {
+			if acted {
+				c.Fail("peer-connection-changed-sleep-state", fmt.Sprintf("frame %d: a connecting peer changed the sleep state", i), cs)
+			}
+			for _, fc := range o.FwdWakeCmds {
+				ok := false
+				for j := 0; j < i; j++ {
+					pc := cs.Frames[j].Cmd
+					if pc != nil && pc.Kind == "wake" && pc.Origin == fc.Origin && pc.ID == fc.ID && pc.Ts == fc.Ts &&
+						pc.SigOK && !pc.Zero && scx.TsInWindow(obs[j].NowNs, pc.Ts, windowNs) && o.NowNs-obs[j].NowNs <= int64(300*time.Second)+200e6 {
+						ok = true
+					}
+				}
+				if !ok {
+					c.Fail("pending-wake-forward-unverified", fmt.Sprintf("frame %d: connecting peer %d was sent wake command (%d,%d,%d) which no frame delivered validly within the last 5 minutes", i, fs.From, fc.Origin, fc.ID, fc.Ts), cs)
+				}
+			}
+			continue
+		}
 		if !acted && !forwarded {
 			continue
 		}
@@ -227,6 +267,13 @@ func monitor(c *vh.Ctx, cs *caseSpec, obs []stepObs) {
 }
 
 func coqFrame(fs *frameSpec) string {
+	if fs.Type == "peer-up" {
+		return "EvPeerUp"
+	}
+	return "(EvFrame " + coqFrame0(fs) + ")"
+}
+
+func coqFrame0(fs *frameSpec) string {
 	switch fs.Type {
 	case "sleep":
 		return "(FSleep " + scx.CoqCmd(fs.Cmd) + ")"
@@ -313,8 +360,12 @@ func TestVerif(t *testing.T) {
 		}
 		key := fmt.Sprintf("%v/%v", cs.Signing, cs.Sleeping)
 		for _, f := range cs.Frames {
-			key += fmt.Sprintf("|%s:%d:%d:%d:%s:%d:%v:%d", f.Type, f.From, f.Cmd.Origin, f.Cmd.ID, f.Cmd.Sig, f.Cmd.Ts, f.Cmd.SeenBy, f.AdvanceMs)
 			c.Count("frame:" + f.Type)
+			if f.Cmd == nil {
+				key += fmt.Sprintf("|%s:%d:%d", f.Type, f.From, f.AdvanceMs)
+				continue
+			}
+			key += fmt.Sprintf("|%s:%d:%d:%d:%s:%d:%v:%d", f.Type, f.From, f.Cmd.Origin, f.Cmd.ID, f.Cmd.Sig, f.Cmd.Ts, f.Cmd.SeenBy, f.AdvanceMs)
 			c.Count("sig:" + f.Cmd.Sig)
 		}
 		c.Case(key, cs.Signing, cs)
@@ -351,13 +402,26 @@ func TestVerif(t *testing.T) {
 		do(&caseSpec{Signing: true, Why: "flooded-valid", Frames: []frameSpec{{Type: "sleep", From: 1, Cmd: &scx.CmdSpec{Kind: "sleep", Origin: 10, ID: 1, Sig: "valid"}}, {Type: "wake", From: 2, AdvanceMs: 1500, Cmd: &scx.CmdSpec{Kind: "wake", Origin: 10, ID: 2, Sig: "valid"}}}})
 		do(&caseSpec{Signing: true, Why: "flooded-unsigned", Frames: []frameSpec{{Type: "sleep", From: 1, Cmd: &scx.CmdSpec{Kind: "sleep", Origin: 10, ID: 1, Sig: "zero"}}}})
 
-		n := c.N(500, 12000)
+		// 4. a verified wake command is re-sent to a peer connecting within 5 minutes, not after, never to its origin
+		do(&caseSpec{Signing: true, Sleeping: true, Why: "pending-wake", Frames: []frameSpec{
+			{Type: "wake", From: 1, Cmd: &scx.CmdSpec{Kind: "wake", Origin: 10, ID: 7, Sig: "valid"}},
+			{Type: "peer-up", From: 4, AdvanceMs: 200000}, {Type: "peer-up", From: 10}, {Type: "peer-up", From: 2, AdvanceMs: 101000}}})
+		do(&caseSpec{Signing: true, Sleeping: true, Why: "pending-wake-rejected", Frames: []frameSpec{
+			{Type: "wake", From: 1, Cmd: &scx.CmdSpec{Kind: "wake", Origin: 10, ID: 8, Sig: "bitflip"}},
+			{Type: "queued-wake", From: 1, Cmd: &scx.CmdSpec{Kind: "wake", Origin: 10, ID: 9, Sig: "zero"}},
+			{Type: "peer-up", From: 4, AdvanceMs: 1000}}})
+
+		n := c.N(500, 8000)
 		for i := 0; i < n; i++ {
 			r := c.Rand.Fork()
 			cs := &caseSpec{Signing: !r.Chance(1, 6), Sleeping: r.Chance(1, 2)}
 			nf := 1 + r.Intn(4)
 			for j := 0; j < nf; j++ {
-				typ := []string{"sleep", "wake", "queued-sleep", "queued-wake"}[r.Intn(4)]
+				if j > 0 && r.Chance(1, 4) {
+					cs.Frames = append(cs.Frames, frameSpec{Type: "peer-up", From: r.Pick(1, 2, 4, 10, 11), AdvanceMs: int64(r.Pick(0, 1000, 59000, 299000, 300000, 301000))})
+					continue
+				}
+				typ := []string{"sleep", "wake", "wake", "queued-sleep", "queued-wake"}[r.Intn(5)]
 				kind := "sleep"
 				if strings.HasSuffix(typ, "wake") {
 					kind = "wake"
